@@ -78,28 +78,23 @@ Theorem C04_outcome_stable_partial : forall c : cfg, donech c = true -> norepeat
 Proof. exact outcome_stable_partial. Qed.
 Print Assumptions C04_outcome_stable_partial.
 
-(* ---- "succeeded iff every step finished successfully" is FALSE of the pinned code in stopped runs (F5c):
-        forall executions, st i = finished -> the step's command ran and its last attempt succeeded.
-   Witness (reproduced on the real scheduler: stop during a slow step precondition,
-   findings/C08-F5c-stop-committed-step-finished.json): the loop has committed the step when the stop arrives; the
-   step is launched afterwards, its worker skips the command, node and run are reported finished; onSuccess runs. *)
-Theorem C04_finished_without_running_refuted :
-  exists s, run (one_step 1 false) (init (one_step 1 false)) f5c_exec = Some s /\ pc s = LDone /\
-    canceled s = true /\ st (nd s 0) = NSuccess /\ att (nd s 0) = 0 /\ dry (one_step 1 false) = false /\
-    overall (one_step 1 false) s = OSuccess /\ hstarts f5c_exec = [HSuccess; HExit] /\
-    run_clean (one_step 1 false) (init (one_step 1 false)) f5c_exec = None.
-Proof. exact f5c_witness. Qed.
-Print Assumptions C04_finished_without_running_refuted.
-
-(* Strongest true statement: in every execution all of whose stop requests are "clean" (when the flag is set no node
-   is committed by the loop and no worker is between its creation and its own cancel test: run_clean, decidable), a
-   step reported finished did run and its last attempt succeeded - so by C04_finished_iff "reported finished" means
-   every step really completed or was skipped, also in a stopped run. *)
-Theorem C04_finished_means_ran_partial : forall c : cfg, donech c = true -> norepeat c ->
-  forall ls s, run_clean c (init c) ls = Some s -> dry c = false ->
+(* "Succeeded" means completed - also in a stopped run: in EVERY reachable state a step reported finished did run and its
+   last attempt succeeded; so by C04_finished_iff "reported finished" means every step really completed or was skipped.
+   (False of the code before fix ac08004 - F5c: a step the loop had committed when the stop arrived was launched
+   afterwards, skipped its command and was reported finished, the run finished, onSuccess ran.) *)
+Theorem C04_finished_means_ran : forall c : cfg, donech c = true -> norepeat c ->
+  forall s, Reach c s -> dry c = false ->
   forall i, st (nd s i) = NSuccess -> exists fs, outs (nd s i) = true :: fs.
-Proof. exact finished_means_ran_partial. Qed.
-Print Assumptions C04_finished_means_ran_partial.
+Proof. exact finished_means_ran. Qed.
+Print Assumptions C04_finished_means_ran.
+
+(* the F5c scenario in the repaired model: the committed step is launched after the stop, never runs, ends canceled;
+   the run is canceled; onCancel then onExit *)
+Example C04_committed_step_canceled_repaired :
+  exists s, run (one_step 1 false) (init (one_step 1 false)) f5c_exec = Some s /\ pc s = LDone /\
+    canceled s = true /\ st (nd s 0) = NCancel /\ att (nd s 0) = 0 /\ dry (one_step 1 false) = false /\
+    overall (one_step 1 false) s = OCancel /\ hstarts f5c_exec = [HCancel; HExit].
+Proof. exact f5c_repaired. Qed.
 
 (* Non-vacuity: a clean stop of two executing steps reaches every premise: both end canceled, the outcome at HBegin is
    canceled, the handlers are [onCancel; onExit], the cancel flag does not change afterwards. *)
@@ -107,7 +102,6 @@ Example C04_nonvacuous :
   (donech two_steps = true /\ norepeat two_steps) /\
   exists s1 s2 s3, run two_steps (init two_steps) stop2_pre = Some s1 /\
     step two_steps s1 HBegin = Some s2 /\ run two_steps s2 stop2_post = Some s3 /\
-    run_clean two_steps (init two_steps) (stop2_pre ++ HBegin :: stop2_post) = Some s3 /\
     pc s3 = LDone /\ dry two_steps = false /\ timedout s3 = false /\ canceled s3 = canceled s1 /\
     overall two_steps s1 = OCancel /\ hstarts stop2_post = [HCancel; HExit] /\
     map (fun i => st (nd s3 i)) [0; 1] = [NCancel; NCancel] /\ pc s1 = LExited.
